@@ -379,6 +379,36 @@ Check C17_composition_float_lin_recip : forall ua ub uc ka kb kc la lb lc v,
     Rv via = Rv direct * ((1 + d1) * (1 + d2) * (1 + d3) * (1 + d4)) /\
     Rabs (Rv via - Rv direct) <= ((1 + u53') * (1 + u53') * (1 + u53') * (1 + u53') - 1) * Rabs (Rv direct))%R.
 Print Assumptions C17_composition_float_lin_recip.
+(* THERE AND BACK WITH NO RANGE HYPOTHESES, over the regenerated table: for EVERY pair of linear / reciprocal units
+   of the table and EVERY valid finite double v with 2^-400 <= |v| <= 2^400 (within 400), converting v to B and back
+   to A returns v up to ((1+u/(1-u))^4 - 1)|v| (about 4 * 2^-53 relative).  The range hypotheses of the theorems above
+   are discharged: every table coefficient lies in 2^-101 .. 2^101 (table_coefficients_mag_ok, vm_compute over the
+   table: the bound is the table), each step moves the magnitude by at most 2^101 and each rounding by a factor 2,
+   so all four exact intermediate results stay within 2^-807 .. 2^807, inside the normal range. *)
+Theorem C17_there_and_back_float_table : forall ua ub ka kb la lb v,
+  In ua all_units -> In ub all_units ->
+  kind_coef ua = Some (ka, la) -> kind_coef ub = Some (kb, lb) ->
+  fin v -> within 400 (Rv v) ->
+  let r2 := through_base fl v ua ub in
+  let r4 := through_base fl r2 ub ua in
+  (Rabs (Rv r4 - Rv v) <= ((1 + u53') * (1 + u53') * (1 + u53') * (1 + u53') - 1) * Rabs (Rv v))%R.
+Proof. exact there_and_back_float_table. Qed.
+Check C17_there_and_back_float_table : forall ua ub ka kb la lb v,
+  In ua all_units -> In ub all_units ->
+  kind_coef ua = Some (ka, la) -> kind_coef ub = Some (kb, lb) ->
+  fin v -> within 400 (Rv v) ->
+  let r2 := through_base fl v ua ub in
+  let r4 := through_base fl r2 ub ua in
+  (Rabs (Rv r4 - Rv v) <= ((1 + u53') * (1 + u53') * (1 + u53') * (1 + u53') - 1) * Rabs (Rv v))%R.
+Print Assumptions C17_there_and_back_float_table.
+Example C17_float_table_hypotheses_satisfiable :
+  existsb (fun ua => existsb (fun ub =>
+     match kind_coef ua, kind_coef ub with
+     | Some (true, _), Some (false, _) => String.eqb (u_cat ua) (u_cat ub)
+     | _, _ => false
+     end) all_units) all_units = true /\
+  fin (num_of_bits 0x403e000000000000) /\ within 400 (Rv (num_of_bits 0x403e000000000000)).
+Proof. exact table_theorem_hypotheses_satisfiable. Qed.
 (* the reciprocal units of the table as it is (regenerated): the theorem's new scope *)
 Example C17_reciprocal_units_nonempty : reciprocal_units <> [].
 Proof. vm_compute. discriminate. Qed.
